@@ -29,9 +29,9 @@ func corrupt(t *rapid.T, c *wire.Crypto, raw []byte) (out []byte, class string, 
 	if kind == 0 {
 		n := rapid.IntRange(0, minLen-1).Draw(t, "shortLen")
 		if n <= len(raw) && rapid.Bool().Draw(t, "prefix") {
-			return append([]byte(nil), raw[:n]...), "too_short", true
+			return append([]byte{}, raw[:n]...), "too_short", true
 		}
-		return rapid.SliceOfN(rapid.Byte(), n, n).Draw(t, "shortRnd"), "too_short", true
+		return append([]byte{}, rapid.SliceOfN(rapid.Byte(), n, n).Draw(t, "shortRnd")...), "too_short", true // an empty datagram is legal UDP
 	}
 	if c.IsAEAD() {
 		out = append([]byte(nil), raw...)
@@ -106,6 +106,7 @@ func TestC06Session(t *testing.T) {
 		maxInj := rapid.IntRange(3, 30).Draw(rt, "maxInj")
 		classes := map[string]int{}
 		inj, inflight, strangerInj := 0, 0, 0
+		viaSocket, emptyViaSocket := 0, 0
 		rapid.SyncTest(rt, func(rt *rapid.T) {
 			s := sim.NewSessSim(cfg.ClockOff, cfg.EntropySeed)
 			p, err := sim.NewPair(s, cfg, app)
@@ -167,8 +168,16 @@ func TestC06Session(t *testing.T) {
 				}
 				snmpBefore := *kcp.DefaultSnmp.Copy()
 				dgBefore, doneBefore := s.Datagrams, len(s.BlockedCalls())
-				buf := append([]byte(nil), bad...)
-				if viaListener {
+				buf := append([]byte{}, bad...)
+				if rapid.IntRange(0, 2).Draw(rt, "viaSocket") == 0 && (viaListener || !fromStranger) {
+					// through the simulated socket and the library's own receive loop
+					// (which sees what a socket reports for it: n bytes, also n == 0)
+					s.Net.Deliver(p.Addr[e].String(), from, buf)
+					viaSocket++
+					if len(buf) == 0 {
+						emptyViaSocket++
+					}
+				} else if viaListener {
 					p.L.VerifPacketInput(buf, from)
 				} else {
 					p.Sess[e].VerifPacketInput(buf)
@@ -232,6 +241,12 @@ func TestC06Session(t *testing.T) {
 		}
 		if strangerInj > 0 {
 			cl = append(cl, "from_never_seen_address")
+		}
+		if viaSocket > 0 {
+			cl = append(cl, "through_the_socket_and_receive_loop")
+		}
+		if emptyViaSocket > 0 {
+			cl = append(cl, "empty_datagram_through_the_socket")
 		}
 		if cfg.FEC[0][0] > 0 {
 			cl = append(cl, "fec_on")
